@@ -137,7 +137,7 @@ Variable children : list (option child_ops).
    active state of the submachine: back / back11 and (after the fix) backmp11 *)
 Lemma back_exitpt_inactive fuel r x ev rn g nxt p :
   tgt_state (r_tgt x) = Some nxt -> r_exitpt x = Some p -> exit_pt_active rn (r_src x) p = false ->
-  exec_row cf mc children fuel r x ev rn g = (Some HANDLED_FALSE, rn, g).
+  exec_row cf contained mc children fuel r x ev rn g = (Some HANDLED_FALSE, rn, g).
 Proof.
   intros Ht Hp Ha. unfold exec_row. rewrite Ht, Hp. unfold bind, get. rewrite Ha. reflexivity.
 Qed.
@@ -161,7 +161,7 @@ Qed.
    the original payload) is handed to the enclosing machine *)
 Lemma back_enter_exit_point fuel s ev ety rn g :
   child children s = None -> s_kind (get_state mc s) = KExitPt ety -> g_plan g = [] ->
-  exec_entry cf mc children fuel s ev EkPlain rn g =
+  exec_entry cf contained mc children fuel s ev EkPlain rn g =
     (Some tt, rn, Glob (Cb KEntry [] s ev false (act rn) :: g_tr g) (S (g_cb g)) [] (g_val g)
                        (g_up g ++ [Evt ety (e_pay ev)]) (g_bad g)).
 Proof.
